@@ -207,6 +207,33 @@ def placement_facts(rs, p, leaf, frm, depthN, payload_types):
     return False
 
 
+def placement_facts2(rs, p, leaf, frm, depthN, content, open_start):
+    """Facts about why the document side of the fitter (which has no isolating guard) may put
+    payload outside N: (no_inside_level_accepts) some node type of the payload - top level or
+    along the open left side - is accepted directly by no frontier level inside N;
+    (spine_type_is_outer_ancestor) a node that is open on the slice's left side has the type of
+    N itself or of an ancestor outside N, so the fitter joins it with that ancestor."""
+    from ..refschema import run as rrun
+
+    levels = ancestor_levels(p, frm, leaf)
+    inside = levels[depthN:]
+    outer_types = {lv[0] for lv in levels[:depthN + 1]}  # ancestors outside N and N itself
+
+    def accepts(level, t):
+        st = rrun(rs.nodes[level[0]].regex, level[1])
+        return st is not EMPTY and deriv(st, t) is not EMPTY
+
+    no_inside = any(not any(accepts(lv, t) for lv in inside) for t in payload_types(content, open_start))
+    spine = []
+    cur = content
+    for _ in range(open_start):
+        if not cur or cur[0][0] != "n":
+            break
+        spine.append(cur[0][1])
+        cur = cur[0][4]
+    return {"no_inside_level_accepts": no_inside, "spine_type_is_outer_ancestor": any(t in outer_types for t in spine)}
+
+
 def payload_types(content, open_start):
     """Top-level child types of a slice's content plus the child types along its open
     left side."""
@@ -326,6 +353,11 @@ def case(ctx, rnd, i):
                     "inner_replace_range_outside_isolating_node": any(x < a + 1 or y > b for x, y in inner_calls),
                     "old_outside_tokens_preserved_in_order": preserved,
                     "payload_fits_directly_only_outside": placement_facts(rs, p, leaf, f, depthN, ptypes) if ptypes else False}
+            if ptypes:
+                if op in ("replace", "replace_range"):
+                    mech.update(placement_facts2(rs, p, leaf, f, depthN, flat.pt_frag(s.content), s.open_start))
+                else:
+                    mech.update(placement_facts2(rs, p, leaf, f, depthN, (flat.pt(nd),), 0))
             det = {**base, "op": op, "args": args, "isolating_node": {"type": ntype, "open": a, "close": b}}
             if not head_ok or not tail_ok:
                 ctx.violation("leaked", "%s(%d,%d) inside the isolating %s at %d..%d changed content %s it: %s" % (
